@@ -120,7 +120,7 @@ var values = []pv{
 	{"net.OpError without syscall error", func() any { return &net.OpError{Op: "read", Net: "tcp", Err: errors.New("broken pipe")} }, false, false},
 }
 
-var progress = []string{"nothing", "informational", "header", "header-101", "partial-body", "flushed", "streamed-readfrom", "streamed-iocopy"}
+var progress = []string{"nothing", "hijack-refused", "informational", "header", "header-101", "partial-body", "flushed", "streamed-readfrom", "streamed-iocopy"}
 var kinds = []string{"route", "route-middleware", "route-ignored-slash", "nested-router", "noroute", "nomethod", "options"}
 
 var sensitive = []string{"Authorization", "Proxy-Authorization", "Cookie", "Set-Cookie", "X-CSRF-Token", "X-Vault-Token"}
@@ -148,6 +148,11 @@ func doPanic(c fox.Context) {
 		return
 	}
 	switch p.progress {
+	case "hijack-refused":
+		// the handler tries to take the connection over, the underlying writer cannot: nothing has been sent
+		if _, _, err := c.Writer().Hijack(); err == nil {
+			panic("verif: Hijack succeeded on an underlying writer that does not offer it")
+		}
 	case "informational":
 		c.Writer().WriteHeader(103)
 	case "header":
@@ -171,6 +176,60 @@ func doPanic(c fox.Context) {
 	}
 	p.raised = p.value.make()
 	panic(p.raised)
+}
+
+// disabled is a log handler that rejects every record (slog.DiscardHandler, or a level above ERROR).
+type disabled struct{}
+
+func (disabled) Enabled(context.Context, slog.Level) bool  { return false }
+func (disabled) Handle(context.Context, slog.Record) error { return nil }
+func (disabled) WithAttrs([]slog.Attr) slog.Handler        { return disabled{} }
+func (disabled) WithGroup(string) slog.Handler             { return disabled{} }
+
+// silentLogger: whether the diagnostic record is wanted or not, the client gets its 500 (and nothing else changes):
+// Recovery built on a handler that rejects every record.
+func silentLogger(run *kit.Run) {
+	f, err := fox.New(fox.WithMiddleware(fox.CustomRecoveryWithLogHandler(disabled{}, fox.DefaultHandleRecovery)),
+		fox.WithNoRouteHandler(func(c fox.Context) { doPanic(c); fox.DefaultNotFoundHandler(c) }))
+	if err != nil {
+		run.Inconclusive("fox.New: %v", err)
+		return
+	}
+	f.MustHandle("GET", "/p/{id}", func(c fox.Context) { doPanic(c) })
+	for _, v := range values {
+		for _, pr := range []string{"nothing", "informational", "header", "partial-body"} {
+			for _, path := range []string{"/p/1", "/none"} {
+				id := fmt.Sprintf("silent-logger|%s|%s|%s", v.name, pr, path)
+				run.Case(id, true)
+				pl := &plan{value: v, progress: pr}
+				req := &http.Request{Method: "GET", URL: &url.URL{Path: path}, Header: http.Header{}, Proto: "HTTP/1.1", ProtoMajor: 1, ProtoMinor: 1, RemoteAddr: "192.0.2.1:1"}
+				req = req.WithContext(context.WithValue(context.Background(), planKey{}, pl))
+				u := &under{h: http.Header{}}
+				var escaped any
+				func() {
+					defer func() { escaped = recover() }()
+					f.ServeHTTP(u, req)
+				}()
+				log := strings.Join(u.log, "; ")
+				switch {
+				case v.abort:
+					if escaped == nil {
+						run.Violate(id+"|abort", "http.ErrAbortHandler did not propagate (Recovery with a log handler that rejects every record)", nil)
+					}
+				case escaped != nil:
+					run.Violate(id+"|escaped", fmt.Sprintf("a panic escaped ServeHTTP (Recovery with a log handler that rejects every record): %v", escaped), nil)
+				case v.broken || pr == "header" || pr == "partial-body":
+					if strings.Contains(log, "header 500") {
+						run.Violate(id+"|response", fmt.Sprintf("nothing more may be sent here, the underlying writer saw %q", log), nil)
+					}
+				default:
+					if strings.Count(log, "header 500") != 1 {
+						run.Violate(id+"|response", fmt.Sprintf("nothing final had been written: the client must get a single 500 whether or not the log handler wants the record; the underlying writer saw %q", log), nil)
+					}
+				}
+			}
+		}
+	}
 }
 
 // panickingSource delivers "partial" on the first Read and raises the plan's panic value on the second.
@@ -245,6 +304,7 @@ func main() {
 			}
 		}
 	}
+	silentLogger(run)
 	txnPanics(run)
 	writePanics(run)
 	concurrentPanics(run)
@@ -299,7 +359,7 @@ func one(run *kit.Run, f *fox.Router, cap *capture, v pv, pr, kind, hname, secre
 		fail("escaped", "a panic escaped ServeHTTP: %v", escaped)
 	}
 	// client-visible result
-	sent := map[string]string{"nothing": "", "informational": "header 103", "header": "header 202", "header-101": "header 101", "partial-body": `header 202; body "partial"`, "flushed": "header 200; flush", "streamed-readfrom": `header 200; body "partial"`, "streamed-iocopy": `header 200; body "partial"`}[pr]
+	sent := map[string]string{"nothing": "", "hijack-refused": "", "informational": "header 103", "header": "header 202", "header-101": "header 101", "partial-body": `header 202; body "partial"`, "flushed": "header 200; flush", "streamed-readfrom": `header 200; body "partial"`, "streamed-iocopy": `header 200; body "partial"`}[pr]
 	switch {
 	case v.abort:
 		if log != sent {
